@@ -88,8 +88,8 @@ v(["C02", "C09"], "awrite-between-close-and-rename", LIB,
 v(["C02", "C09", "C11"], "excl-to-trunc", LIB, "H5Fcreate (fullname, H5F_ACC_EXCL,", "H5Fcreate (fullname, H5F_ACC_TRUNC,", rules=["C02.R3"])
 v(["C02", "C09", "C11"], "access-test-deleted", LIB, "\tif( access( finished_fullname, F_OK ) != -1 )\n\t{", "\tif( 0 )\n\t{", rules=["C02.R3", "C11.R3"])
 v(["C02", "C09"], "reader-opens-rplus", RF, 'fullfile, "r", rdcc_nbytes=self.rdcc_nbytes', 'fullfile, "r+", rdcc_nbytes=self.rdcc_nbytes', rules=["C02.R3"])
-v(["C02", "C09", "C14"], "dmdfile-allows-tmp", LD, 'RE_DMDFILE = r"(?P<name>(?!tmp\\.).+?)@(?P<secs>[0-9]+)\\.h5$"',
-  'RE_DMDFILE = r"(?P<name>.+?)@(?P<secs>[0-9]+)\\.h5$"', rules=["C02.R5", "C14.R1"])
+v(["C02", "C09", "C14"], "dmdfile-allows-tmp", LD, 'RE_DMDFILE = RE_FILENAME + r"@(?P<secs>[0-9]+)\\.h5$"',
+  'RE_DMDFILE = r"(?P<name>[^/]+?)@(?P<secs>[0-9]+)\\.h5$"', rules=["C02.R5", "C14.R1"])
 v(["C02"], "fopen-added", LIB, "\t/* last we add metadata */\n", "\t{ FILE * fp = fopen(finished_fullname, \"a\"); if (fp) fclose(fp); }\n\t/* last we add metadata */\n", rules=["C02.R3"])
 
 # ---- C04 -----------------------------------------------------------------------------------------------------
@@ -299,6 +299,11 @@ v("C06", "regenerate-one-subdir", RF, "    for this_subdir in subdirs[mid:] + su
   "    this_subdir = subdirs[mid]\n    rf_files = glob.glob(os.path.join(this_subdir, rf_file_glob))\n    if len(rf_files) == 0:\n", rules=["C06.R4"])
 v("C16", "growth-without-expiry", RB, "                # a file that grew can push the total size over the limit\n                self._expire(rec.group)\n", "", rules=["C16.R5"])
 v("C10", "index-write-failure-not-sticky", LIB, "			/* the data is in the file but not described by its index: the file must not be published */\n			hdf5_data_object->has_failure = 1;\n", "", rules=["C10.R2"])
+v("C09", "probe-and-read-interleaved", RF, "            present = []\n            for fp in reversed(filepaths):\n                fullfile = os.path.join(self.top_level_dir, self.channel_name, fp)\n                if os.access(fullfile, os.R_OK):\n                    present.append(fullfile)\n            for fullfile in reversed(present):\n",
+  "            for fp in filepaths:\n                fullfile = os.path.join(self.top_level_dir, self.channel_name, fp)\n                if not os.access(fullfile, os.R_OK):\n                    continue\n", rules=["C09.R4"])
+v("C09", "probing-pass-oldest-first", RF, "            for fp in reversed(filepaths):\n                fullfile = os.path.join(self.top_level_dir, self.channel_name, fp)\n                if os.access(fullfile, os.R_OK):\n                    present.append(fullfile)\n            for fullfile in reversed(present):\n",
+  "            for fp in filepaths:\n                fullfile = os.path.join(self.top_level_dir, self.channel_name, fp)\n                if os.access(fullfile, os.R_OK):\n                    present.append(fullfile)\n            for fullfile in present:\n", rules=["C09.R4"])
+v("C09", "twin-probing-pass-insert-front", RF, "                    present.append(fullfile)\n            for fullfile in reversed(present):\n", "                    present.insert(0, fullfile)\n            for fullfile in present:\n", expect="silent")
 v("C20", "reader-cache-by-channel", RF, "        reader_key = (channel_name, top_level_dir)", "        reader_key = channel_name", rules=["C20.R7"])
 v("C19", "gap-from-requested-index", RF, "        gap_size = (next_avail_sample - self._next_avail_sample) - nwritten", "        gap_size = next_sample - self._next_avail_sample", rules=["C19.R2"])
 v("C19", "gap-without-nwritten", RF, "        gap_size = (next_avail_sample - self._next_avail_sample) - nwritten", "        gap_size = next_avail_sample - self._next_avail_sample", rules=["C19.R2"])
